@@ -28,7 +28,10 @@ def floors(tier):
 def gen_cases(tier, seed):
     ss = np.random.SeedSequence([seed, 17])
     q = tier == "quick"
-    return [{"seed": int(ch.generate_state(1)[0]), "max_atoms": 90 if q else 150} for ch in ss.spawn(170 if q else 3000)]
+    cases = [{"seed": int(ch.generate_state(1)[0]), "max_atoms": 90 if q else 150} for ch in ss.spawn(170 if q else 3000)]
+    # the one-atom members of the family on every run (Atom vs Class0D / Class1D-3D when bonded to its own images)
+    cases += [{"seed": int(ch.generate_state(1)[0]), "max_atoms": 1, "single_atom": True} for ch in ss.spawn(8 if q else 80)]
+    return cases
 
 
 def worker_init(lane):
@@ -75,6 +78,14 @@ def run_case(case):
     rng = np.random.default_rng(case["seed"])
     rec = core.Recorder()
     atoms, meta = structures.random_structure(rng, max_atoms=case["max_atoms"], allow_invalid=True)
+    if case.get("single_atom"):
+        from ase import Atoms
+        from gen import cells as _cells
+        L = rng.uniform(2.0, 15.0, size=3)
+        pbc = _cells.PBCS[int(rng.integers(8))]
+        atoms = Atoms(numbers=[int(rng.choice([1, 6, 13, 26, 29, 55, 79]))], positions=[rng.uniform(-3, 18, size=3)], cell=np.diag(L), pbc=pbc)
+        meta = {"family": "single_atom", "cell_mode": "as_built", "positions_mode": "anywhere", "expect_value_error": False,
+                "pbc": "".join("TF"[not b] for b in pbc), "natoms": 1, "order": "as_built"}
     if rng.random() < 0.08:
         from ase import Atoms
         atoms = Atoms(numbers=atoms.get_atomic_numbers(), positions=atoms.get_positions())     # no cell at all
